@@ -145,6 +145,7 @@ inline std::size_t spvecgf2() {
     std::size_t r = (a * b) + (a * s) + c.size();
     for (auto it = c.begin(); it != c.end(); ++it) r += *it;
     c.clear();
+    e = {};                 // resolution witness for R17d: must select the copy/move assignment (zero vector), not a converting overload
     return r + e.size();
 }
 
